@@ -742,3 +742,21 @@ CASES["C08"] += [
 CASES["C05"] += [
     ("destination layout rebuilt without its offset", "mutant", DMAF, "            tsl_dest = TiledStridedLayoutAttr(TiledStridedLayout.from_strides(strides, tile_bounds, offset))", "            tsl_dest = TiledStridedLayoutAttr(TiledStridedLayout.from_strides(strides, tile_bounds))", ["C05.layout-offset", "C05.mirror"]),
 ]
+
+COMBINEF = "snaxc/phs/combine.py"
+SCHEDF2 = "snaxc/ir/dart/scheduler.py"
+CASES["C20"] += [
+    ("merge: new mux without its own switch", "mutant", COMBINEF, "                switch=abstract_graph.add_switch(),  # extra switch to control input", "                switch=abstract_graph.body.block.args[-1],  # extra switch to control input", ["C20.merge"]),
+    ("merge: default and conflicting connection exchanged", "mutant", COMBINEF, "                lhs=abst_opnd,  # this is the default connection\n                rhs=equivalent_owner,  # this is the conflicting connection", "                lhs=equivalent_owner,  # this is the default connection\n                rhs=abst_opnd,  # this is the conflicting connection", ["C20.merge"]),
+    ("merge: operand 0 rerouted whatever the conflicting slot", "mutant", COMBINEF, "            abst_op.operands[i] = mux.results[0]", "            abst_op.operands[0] = mux.results[0]", ["C20.merge"]),
+    ("merge: terminator routing not uncollided", "mutant", COMBINEF, "            uncollide_inputs(op, abstract_graph.get_terminator())", "            pass", ["C20.merge"]),
+    ("twin: merge loop variables renamed", "twin", COMBINEF, "    for i, (opnd, abst_opnd) in enumerate(zip(op.data_operands, abst_op.data_operands, strict=True)):\n        if are_equivalent(opnd, abst_opnd):\n            continue\n        else:\n            # Add a mux to the switch\n            equivalent_owner = get_equivalent_owner(opnd, abstract_graph)\n            mux = phs.MuxOp(\n                lhs=abst_opnd,  # this is the default connection\n                rhs=equivalent_owner,  # this is the conflicting connection",
+     "    for slot, (mine, theirs) in enumerate(zip(op.data_operands, abst_op.data_operands, strict=True)):\n        i = slot\n        if are_equivalent(mine, theirs):\n            continue\n        else:\n            # Add a mux to the switch\n            equivalent_owner = get_equivalent_owner(mine, abstract_graph)\n            mux = phs.MuxOp(\n                lhs=theirs,  # this is the default connection\n                rhs=equivalent_owner,  # this is the conflicting connection", []),
+]
+CASES["C16"] += [
+    ("spatial unrolling accepted for any non-zero coefficient", "mutant", SCHEDF2, "        spatial = (s.pattern.A[:, -template.num_dims :] == 1).any(axis=1)", "        spatial = (s.pattern.A[:, -template.num_dims :] != 0).any(axis=1)", ["C16.flexibility"]),
+]
+CASES["C02"] += [
+    ("pointer moved by the layout's origin only", "mutant", LAYRESF, "        for operand, offset in zip(op.operands, offsets):\n            pointer: Operation", "        for operand in op.operands:\n            offset = operand.type.get_affine_map_in_bytes().eval([0] * operand.type.get_num_dims(), ())[0]\n            pointer: Operation", ["C02.offset"]),
+    ("stride canonicalisation folds on the outer stride", "mutant", "snaxc/dialects/snax_stream.py", "@patch:seeded/C02-c/patch.diff", "", ["C02.stride-canon"]),
+]
